@@ -60,7 +60,7 @@ def shared_zs():
 
 
 def is_sym(v):
-    return z3.is_expr(v) or isinstance(v, (VStruct, VOpt, VBox, VObj, VAbs, VMatch)) or type(v).__name__ == 'VFn'
+    return z3.is_expr(v) or isinstance(v, (VStruct, VOpt, VBox, VObj, VAbs, VMatch)) or type(v).__name__ in ('VFn', 'VFile')
 
 
 def contains_sym(v):
